@@ -1,7 +1,29 @@
-(* C09 — numbers survive printing and reading back: property theorems. *)
+(* C09 — numbers survive being written as text and read back.  Property theorems only.
+   Model: coq/Model/NumText.v. *)
 From Coq Require Import List NArith ZArith Bool.
-From HV Require Import Model.Big Model.Rat Model.NumText Proofs.TextBase.
+Import ListNotations.
+From HV Require Import Model.Big Model.Rat Model.NumText Proofs.TextBase Proofs.RatSpec Proofs.TextAll.
 Open Scope N_scope.
+
+(* conventional rendering: optional '-', then a non-empty string of digits 0-9A-Z below the base without a
+   leading zero (unless the number is 0) whose value is |a|; also: the divide-by-base loop terminates *)
+Theorem C09_to_string_conventional : forall a base, wf a -> 2 <= base <= 36 ->
+  exists ds, to_string_base a base = TSOk ((if bpos a then [] else [CH_MINUS]) ++ ds) /\
+    ds <> [] /\ Forall (digit_ok base) ds /\ (hd 0 ds = 48 -> ds = [48]) /\
+    digits_val base ds 0 = Z.abs_N (bval a).
+Proof. exact tsb_t. Qed.
+Print Assumptions C09_to_string_conventional.
+
+Theorem C09_int_roundtrip : forall a base s, wf a -> 2 <= base <= 36 ->
+  to_string_base a base = TSOk s -> from_string_base s base = FSOk a.
+Proof. exact fsb_tsb_t. Qed.
+Print Assumptions C09_int_roundtrip.
+
+(* rationals incl. negatives, fractions and NaN: reading back the decimal rendering returns the same number
+   (a NaN of either sign reads back as the canonical NaN) *)
+Theorem C09_num_roundtrip : forall n, wfn n -> num_from_string (num_display n) = Some (if is_nan n then nan else n).
+Proof. exact num_roundtrip_t. Qed.
+Print Assumptions C09_num_roundtrip.
 
 Theorem C09_to_string_base_range : forall a base, base = 0 \/ 36 < base -> to_string_base a base = TSBase.
 Proof. exact tsb_base_range. Qed.
@@ -9,3 +31,11 @@ Print Assumptions C09_to_string_base_range.
 Theorem C09_from_string_base_range : forall s base, base = 0 \/ 36 < base -> from_string_base s base = FSBase.
 Proof. exact fsb_base_range. Qed.
 Print Assumptions C09_from_string_base_range.
+
+Example C09_examples :
+  to_string_base (mkbig false [255]) 16 = TSOk [45; 70; 70] /\
+  from_string_base [45; 70; 70] 16 = FSOk (mkbig false [255]) /\
+  num_from_string (num_display (nnew (-7) 3)) = Some (nnew (-7) 3) /\
+  to_string_base (mkbig true [0; 1]) 36 = TSOk [49; 90; 49; 52; 49; 90; 52].
+Proof. vm_compute. repeat split; reflexivity. Qed.
+Print Assumptions C09_examples.
